@@ -463,6 +463,49 @@ def random_history(rng, pool, n, backed=False):
     return out
 
 
+def tok_history(rng, n):
+    """successive replacements of one submodel, of a Property, of a collection and of a nested Property in it, in which
+    only `tok` (= all other attributes: description, semanticId, supplementalSemanticIds - httpgen.sem_class) of the
+    target changes (for the collection: of itself or of its two children); the walk over tok visits every ordered pair of semantics classes (none / semanticId / semanticId + supplemental)
+    on every target; each PUT followed by a read"""
+    J = (None, "json")
+    smid = "urn:toks"
+    FMT = ["json", "json", "xml", "textxml"]
+    ACC = [(None, "json"), ("application/json", "json"), ("application/xml", "xml"), ("text/xml", "textxml")]
+    cur = {"sm": rng.randrange(1, 7), "p1": rng.randrange(1, 7), "c1": rng.randrange(1, 7), "c1.p0": rng.randrange(1, 7),
+           "c1.p2": rng.randrange(1, 7), "l1": 3}
+    def doc():
+        return {"k": "sm", "id": smid, "ids": "Toks", "tok": cur["sm"], "quals": [],
+                "elems": [P("p1", cur["p1"]), C("c1", [P("p0", cur["c1.p0"]), P("p2", cur["c1.p2"])], cur["c1"]),
+                          L("l1", [P(None, cur["l1"]), P(None, cur["l1"] + 1)])]}
+    one = "/submodels/<base64url:submodel_id>"
+    el = one + "/submodel-elements/<id_short_path:id_shorts>"
+    out = [{"rule": "/submodels", "method": "POST", "accept": J, "query": [], "cls": "post-sm", "body": ("val", rng.choice(FMT), doc())},
+           {"rule": "/shells", "method": "POST", "accept": J, "query": [], "cls": "post-shell",
+            "body": ("val", "json", {"k": "shell", "id": "urn:toks:aas", "ids": "A", "tok": 1, "refs": [smid]})}]
+    while len(out) < n:
+        target = rng.choice(["sm", "sm-via-shell", "p1", "c1", "c1.p2", "c1-child", "c1-child", "l1"])
+        fmt = rng.choice(FMT)
+        key = {"sm-via-shell": "sm", "c1-child": "c1.p2"}.get(target, target)
+        cur[key] = rng.randrange(1, 7)
+        if target == "c1-child":        # two children change: the first one is taken over before the second one is looked at
+            cur["c1.p0"] = rng.randrange(1, 7)
+        if target == "sm":
+            out.append({"rule": one, "method": "PUT", "accept": J, "query": [], "cls": "put-sm-tok", "sm": b64(smid), "body": ("val", fmt, doc())})
+        elif target == "sm-via-shell":
+            out.append({"rule": "/shells/<base64url:aas_id>/submodels/<base64url:submodel_id>", "method": "PUT", "accept": J, "query": [],
+                        "cls": "put-via-shell-tok", "aas": b64("urn:toks:aas"), "sm": b64(smid), "body": ("val", fmt, doc())})
+        else:
+            path = {"c1-child": "c1"}.get(target, target)
+            e = [x for x in doc()["elems"] if x["ids"] == path.split(".")[0]][0]
+            if path == "c1.p2":
+                e = e["children"][1]
+            out.append({"rule": el, "method": "PUT", "accept": J, "query": [], "cls": "put-elem-tok", "sm": b64(smid), "path": path,
+                        "body": ("val", fmt, dict(e, k="elem"))})
+        out.append({"rule": one, "method": "GET", "accept": rng.choice(ACC), "query": [], "cls": "get-sm", "sm": b64(smid), "body": ("none",)})
+    return out
+
+
 def scenarios():
     """directed histories for the known open findings: (label, backed, requests, index of the
     request the finding is about, signature, oracle_only)"""
